@@ -64,7 +64,17 @@ func c09Generate(r *common.Rand, overlap bool) mCase {
 		// many children (slices.SortFunc and friends change algorithm above 12 elements)
 		n = 13 + r.Intn(4)
 	}
-	return c09GenerateN(r, overlap, n)
+	c := c09GenerateN(r, overlap, n)
+	// single-session histories: now and then a child emits two or three of its messages in one go, with no
+	// sentinel in between (the sentinel is itself a message that reaches the client)
+	if r.Chance(50) {
+		for k := 0; k+1 < len(c.Steps); k++ {
+			if a, b := &c.Steps[k], c.Steps[k+1]; a.K == "child" && b.K == "child" && a.I == b.I && r.Chance(60) {
+				a.Join = true
+			}
+		}
+	}
+	return c
 }
 
 // c09GenerateMulti: two or three sessions of ONE handler value.  Every session
@@ -423,6 +433,48 @@ func c09Exhaustive() []mCase {
 	return out
 }
 
+// c09JoinedTwins: the same EVENT id (resp. COUNT subscription id) submitted twice, every child gives the same
+// answer to both; the children other than "last" answer both one after the other, then child "last" emits its two
+// answers in one go.  Two identical merged replies are due, next to each other on the wire, with nothing in
+// between.  n = 2, 3, every choice of the last child, answers accept / reject / counts 0 and 7: 20 histories.
+func c09JoinedTwins() []mCase {
+	var out []mCase
+	for _, count := range []bool{false, true} {
+		for _, n := range []int{2, 3} {
+			for last := 0; last < n; last++ {
+				for variant := 0; variant < 2; variant++ {
+					c := mCase{N: n}
+					id := "x1"
+					reply := func() *mMsg {
+						if count {
+							return &mMsg{T: "count", Sub: "c1", C: uint64(7 * variant)}
+						}
+						if variant == 0 {
+							return &mMsg{T: "ok", ID: id, Acc: true}
+						}
+						return &mMsg{T: "ok", ID: id, Acc: false, P: "blocked: ", Msg: "no"}
+					}
+					for k := 0; k < 2; k++ {
+						if count {
+							c.Steps = append(c.Steps, mStep{K: "count", Sub: "c1"})
+						} else {
+							c.Steps = append(c.Steps, mStep{K: "event", ID: id})
+						}
+					}
+					for i := 0; i < n; i++ {
+						if i != last {
+							c.Steps = append(c.Steps, mStep{K: "child", I: i, M: reply()}, mStep{K: "child", I: i, M: reply()})
+						}
+					}
+					c.Steps = append(c.Steps, mStep{K: "child", I: last, M: reply(), Join: true}, mStep{K: "child", I: last, M: reply()})
+					out = append(out, c)
+				}
+			}
+		}
+	}
+	return out
+}
+
 func init() {
 	subcmds["c09"] = func(seed uint64, n int, out *common.Out, replay string) {
 		if mergeWorkerMode() {
@@ -444,6 +496,7 @@ func init() {
 			firstOverlap := n - n*2/5
 			cases = append(cases, c09CloseInterleavings()...)
 			cases = append(cases, c09TwoSessions()...)
+			cases = append(cases, c09JoinedTwins()...)
 			if n >= mergeExhaustiveFrom {
 				cases = append(cases, c09Exhaustive()...)
 			}
